@@ -262,6 +262,7 @@ int sm4_gcm_decrypt_update(SM4_GCM_CTX *ctx, const uint8_t *in, size_t inlen, ui
 		if (inlen <= len) {
 			memcpy(ctx->mac + ctx->maclen, in, inlen);
 			ctx->maclen += inlen;
+			*outlen = 0;
 			return 1;
 		} else {
 			memcpy(ctx->mac + ctx->maclen, in, len);
